@@ -79,11 +79,11 @@ theorem clause_required_supplied
     (hsat : fieldSat c name (some tv) isSl (some k) m w conv (fun _ => false) dflt isZ = true)
     (hp : parseTagC c.repaired name tv = .ok (key, po)) (hkey : key ≠ "-".toList)
     (hd : (effOpts po).default = []) (hopt : declOptional (effOpts po) m = false) :
-    ∃ j0, lookupKey c key m = .ok (some j0) := by
+    ∃ j0, lookupKey c (optInherit po) key m = .ok (some j0) := by
   unfold fieldSat at hsat
   simp only [hp, hkey, if_false, Bool.and_eq_true] at hsat
   obtain ⟨_, hrest⟩ := hsat
-  cases hg : lookupKey c key m with
+  cases hg : lookupKey c (optInherit po) key m with
   | error e => simp [hg] at hrest
   | ok lk =>
     cases lk with
@@ -105,7 +105,7 @@ exactly the value it denotes. -/
 theorem clause_supplied
     (hsat : fieldSat c name (some tv) isSl (some k) m w conv absent dflt isZ = true)
     (hp : parseTagC c.repaired name tv = .ok (key, po)) (hkey : key ≠ "-".toList)
-    {j0 : J} (hg : lookupKey c key m = .ok (some j0)) (hnn : (fromArrayValue c isSl j0).isNull = false) :
+    {j0 : J} (hg : lookupKey c (optInherit po) key m = .ok (some j0)) (hnn : (fromArrayValue c isSl j0).isNull = false) :
     rangeOK (effOpts po) (some k) (fromArrayValue c isSl j0) = true
     ∧ optionsOK (effOpts po) (some k) (fromArrayValue c isSl j0) = true
     ∧ conv (fromArrayValue c isSl j0) w = true := by
@@ -132,7 +132,7 @@ theorem rangeOK_numeric {o : Opts} {r : Range} {x : J} (hr : o.range = some r) (
 /-- **clause 5b (defaults)** — an absent field with a declared default holds the default; an absent optional field is untouched. -/
 theorem clause_absent
     (hsat : fieldSat c name (some tv) isSl (some k) m w conv absent dflt isZ = true)
-    (hp : parseTagC c.repaired name tv = .ok (key, po)) (hkey : key ≠ "-".toList) (hg : lookupKey c key m = .ok none) :
+    (hp : parseTagC c.repaired name tv = .ok (key, po)) (hkey : key ≠ "-".toList) (hg : lookupKey c (optInherit po) key m = .ok none) :
     (if !(effOpts po).default.isEmpty then dflt (effOpts po).default w
      else if declOptional (effOpts po) m then isZ w else absent w) = true := by
   unfold fieldSat at hsat
